@@ -65,3 +65,22 @@ pub fn always_both(_: &Opts) -> bool {
 pub fn thorough_both(o: &Opts) -> bool {
     o.tier == crate::engine::Tier::Thorough
 }
+
+/// Entry points for coverage-guided fuzzing (libFuzzer targets under /verif/fuzz): decode the
+/// bytes as a genome for the property's random generator and run its oracle once.
+pub fn fuzz_entry(id: &str) -> Option<fn(&[u8], &mut Acc) -> Vec<crate::engine::Failure>> {
+    Some(match id {
+        "C01" => c01::fuzz_case,
+        "C01src" => c01::fuzz_source,
+        "C02" => c02::fuzz_case,
+        "C05" => c05::fuzz_case,
+        "C06" => c06::fuzz_case,
+        "C07" => c07::fuzz_case,
+        "C08" => c08::fuzz_case,
+        "C09" => c09::fuzz_case,
+        "C10" => c10::fuzz_case,
+        "C11" => c11::fuzz_case,
+        "C17" => c17::fuzz_case,
+        _ => return None,
+    })
+}
